@@ -209,6 +209,10 @@ func main() {
 		pluginMainChild()
 		return
 	}
+	if os.Getenv("VERIF_PROTOCHECK_MODE") == "pluginmain-batch" {
+		pluginMainBatchChild()
+		return
+	}
 	flag.Parse()
 	rep := report.New(*prop)
 	c := &checker{rep: rep}
